@@ -230,8 +230,9 @@ def run_window(ctx: Ctx) -> RuleResult:
     # loops over the window bounded by .end
     nt = repo.func('lark.lexer:BasicLexer.next_token')
     loops = [n for n in nt.body_nodes() if isinstance(n, ast.While)]
-    ok = len(loops) == 1 and isinstance(loops[0].test, ast.Compare) and isinstance(loops[0].test.ops[0], ast.Lt) \
-        and norm(loops[0].test.left).endswith('.char_pos') and norm(loops[0].test.comparators[0]).endswith('.text.end')
+    from ..exprs import as_less
+    lt_ = as_less(loops[0].test) if len(loops) == 1 else None
+    ok = lt_ is not None and lt_[1] == '<' and norm(lt_[0]).endswith('.char_pos') and norm(lt_[2]).endswith('.text.end')
     res.ob('%s %s' % (nt.loc(), nt.qual), 'the token loop runs while char_pos < window end', ok)
     if not ok:
         res.finding(nt, loops[0] if loops else nt.node, 'the token loop is not bounded by the window\'s end', construct='loop-bound')
